@@ -377,6 +377,10 @@ func (m *{{ .Name }}) Delete(k {{ .KeyType }}) {
 }
 
 func (m *{{ .Name }}) delete(k {{ .KeyType }}) {
+	if !m.has(k) {
+		return
+	}
+
 var kk {{ .KeyType }}
 	i := -1
 
@@ -397,7 +401,9 @@ func (m *{{ .Name }}) Filter(fn filter{{ .CapitalizedName }}Func) {
 	m.mx.Lock()
 	defer m.mx.Unlock()
 
-	for _, k := range m.order {
+	// Iterate over a snapshot: delete shifts m.order in place.
+	order := append([]{{ .KeyType }}(nil), m.order...)
+	for _, k := range order {
 		if !fn(k, m.data[k]) {
 			m.delete(k)
 		}
